@@ -429,6 +429,37 @@ pub fn run(ctx: &Ctx) {
             check_total(s, &b[..cut], false, l)
         },
     );
+    // char payloads: every combination of UTF-8 boundary bytes under every length prefix 0..=5, alone and inside a
+    // struct after a borrowed string (grid, exhaustive)
+    {
+        const LEAD: [u8; 22] = [0x00, 0x41, 0x7F, 0x80, 0xBF, 0xC0, 0xC1, 0xC2, 0xDF, 0xE0, 0xE1, 0xEC, 0xED, 0xEE, 0xEF, 0xF0, 0xF1, 0xF3, 0xF4, 0xF5, 0xF8, 0xFF];
+        const CONT: [u8; 9] = [0x00, 0x7F, 0x80, 0x8F, 0x90, 0x9F, 0xA0, 0xBF, 0xC0];
+        let per_len = (LEAD.len() * CONT.len() * CONT.len() * CONT.len()) as u64;
+        let shapes = [
+            Shape::Char,
+            Shape::Tuple(vec![Shape::Str, Shape::Char, Shape::U8]),
+            Shape::Seq(Box::new(Shape::Char)),
+        ];
+        ctx.par_range("char-payload-grid", 6 * per_len, |i, l| {
+            let len = (i / per_len) as u8;
+            let mut k = (i % per_len) as usize;
+            let a = LEAD[k % LEAD.len()];
+            k /= LEAD.len();
+            let b = CONT[k % 9];
+            k /= 9;
+            let c = CONT[k % 9];
+            k /= 9;
+            let d = CONT[k % 9];
+            let payload = [len, a, b, c, d, 0x01];
+            check_total(&shapes[0], &payload, true, l)?;
+            let mut t = vec![0x02, b'h', b'i'];
+            t.extend_from_slice(&payload);
+            check_total(&shapes[1], &t, true, l)?;
+            let mut q = vec![0x01];
+            q.extend_from_slice(&payload);
+            check_total(&shapes[2], &q, true, l)
+        });
+    }
     // long inputs (up to 4 kB)
     ctx.par_proptest(
         "long-inputs",
